@@ -50,7 +50,11 @@ func TestMain(m *testing.M) {
 	if childBin == "" {
 		// direct `go test` run (development): build the child next to the scratch files
 		childBin = filepath.Join(scratch, "logscenario")
-		cmd := exec.Command("go", "build", "-tags", "verif", "-o", childBin, "verifharness/c20/cmd/logscenario")
+		args := []string{"build", "-tags", "verif"}
+		if mf := os.Getenv("VERIF_MODFILE"); mf != "" { // same alternative go.mod as the test binary
+			args = append(args, "-modfile="+mf)
+		}
+		cmd := exec.Command("go", append(args, "-o", childBin, "verifharness/c20/cmd/logscenario")...)
 		if out, err := cmd.CombinedOutput(); err != nil {
 			fmt.Fprintf(os.Stderr, "c20: cannot build the scenario runner: %v\n%s", err, out)
 			os.Exit(2)
@@ -82,9 +86,6 @@ func runChildOnce(sc *scn.Scenario, dir string) childOutcome {
 	}
 	if err := os.WriteFile(scPath, raw, 0o644); err != nil {
 		return childOutcome{harness: err.Error()}
-	}
-	if j := os.Getenv("VERIF_JOURNAL"); j != "" {
-		_ = os.WriteFile(j, raw, 0o644)
 	}
 	ctx, cancel := context.WithTimeout(context.Background(), childTimeout)
 	defer cancel()
@@ -233,8 +234,13 @@ func genLinesOp(t *rapid.T, budget int) scn.Op {
 		op.DupEvery = rapid.IntRange(1, 6).Draw(t, "dup_every")
 		op.Rep = rapid.IntRange(1, 3).Draw(t, "rep")
 	}
-	op.Twin = rapid.IntRange(0, 7).Draw(t, "twin") == 0
-	op.F = rapid.IntRange(0, 4).Draw(t, "f") == 0
+	op.Twin = rapid.SampledFrom([]int{0, 0, 0, 0, 0, 0, 1, 2}).Draw(t, "twin")
+	switch rapid.IntRange(0, 5).Draw(t, "call_style") {
+	case 0:
+		op.F = true
+	case 1, 2:
+		op.Via = true
+	}
 	return op
 }
 
@@ -371,7 +377,7 @@ func scenarioLines(sc *scn.Scenario) (lines int, barrierChange, innerChange, pkg
 					if op.DupEvery > 0 && op.Rep > 0 && op.N >= op.DupEvery {
 						dups = true
 					}
-					if op.Twin {
+					if op.Twin != 0 {
 						twins = true
 					}
 				case scn.OpTracer:
@@ -429,7 +435,7 @@ func record(sc *scn.Scenario, rep *scn.Report, prefix string) {
 	add(rep.TracerWrites > 0, "tracer_with_collected_lines_received")
 	add(dups, "identical_consecutive_lines_drawn")
 	add(rep.MergedWrites > 0, "duplicates_merged_observed")
-	add(twins, "same_text_different_severity_drawn")
+	add(twins, "same_text_not_identical_drawn")
 	add(len(rep.Internal) > 0, "logger_internal_lines_seen")
 	add(sc.PreShutdownSleepUs > 0, "shutdown_delayed")
 	stats.Case(string(raw), nontrivial, cl...)
@@ -441,12 +447,62 @@ func record(sc *scn.Scenario, rep *scn.Report, prefix string) {
 
 // ---------------------------------------------------------------- properties
 
+// batch: each rapid case draws this many independent scenarios and runs their
+// children concurrently (a child spends most of its wall time in the 200ms
+// wait after Shutdown); every scenario is judged and counted on its own.
+const batch = 4
+
+func judgeBatch(t *rapid.T, dirs []string, prefix string, o genOpts) {
+	scs := make([]*scn.Scenario, len(dirs))
+	for i := range scs {
+		scs[i] = genScenario(t, o)
+	}
+	if j := os.Getenv("VERIF_JOURNAL"); j != "" {
+		// what is about to run (the replay file should this process die)
+		if raw, err := json.Marshal(scs); err == nil {
+			_ = os.WriteFile(j, raw, 0o644)
+		}
+	}
+	reps := make([]*scn.Report, len(scs))
+	msgs := make([]string, len(scs))
+	var wg sync.WaitGroup
+	for i := range scs {
+		wg.Add(1)
+		go func(i int) {
+			defer wg.Done()
+			c := &collect{}
+			defer func() {
+				if r := recover(); r != nil && r != errStop {
+					panic(r)
+				}
+				msgs[i] = c.msg
+			}()
+			reps[i] = judge(c, scs[i], dirs[i])
+		}(i)
+	}
+	wg.Wait()
+	for i := range scs {
+		if msgs[i] != "" {
+			t.Fatalf("scenario %d of the batch: %s", i, msgs[i])
+		}
+	}
+	for i := range scs {
+		record(scs[i], reps[i], prefix)
+	}
+}
+
+func batchDirs(t *testing.T, name string) []string {
+	dirs := make([]string, batch)
+	for i := range dirs {
+		dirs[i] = caseDir(t, fmt.Sprintf("%s-%d", name, i))
+	}
+	return dirs
+}
+
 func TestPropLogStream(t *testing.T) {
-	dir := caseDir(t, "prop")
+	dirs := batchDirs(t, "prop")
 	rapid.Check(t, func(t *rapid.T) {
-		sc := genScenario(t, genOpts{minLines: 50, maxLines: 4000})
-		rep := judge(t, sc, dir)
-		record(sc, rep, "")
+		judgeBatch(t, dirs, "", genOpts{minLines: 50, maxLines: 4000})
 	})
 }
 
@@ -454,11 +510,9 @@ func TestPropLogStream(t *testing.T) {
 // and resumed repeatedly during Shutdown (a legal, if unfriendly, schedule of
 // the writer: it models the OS not running the process for a while).
 func TestPropShutdownUnderStutter(t *testing.T) {
-	dir := caseDir(t, "stutter")
+	dirs := batchDirs(t, "stutter")
 	rapid.Check(t, func(t *rapid.T) {
-		sc := genScenario(t, genOpts{minLines: 50, maxLines: 1500, stutter: true})
-		rep := judge(t, sc, dir)
-		record(sc, rep, "stutter_")
+		judgeBatch(t, dirs, "stutter_", genOpts{minLines: 50, maxLines: 1500, stutter: true})
 	})
 }
 
